@@ -315,7 +315,7 @@ Checkable::ProcessingResult Checkable::ProcessCheckResult(const CheckResult::Ptr
 	if (hardChange && !(old_stateType == StateTypeSoft && IsStateOK(new_state)))
 		send_notification = true;
 	/* Or if the checkable is volatile and in a HARD state. */
-	else if (is_volatile && GetStateType() == StateTypeHard)
+	else if (is_volatile && GetStateType() == StateTypeHard && !(old_stateType == StateTypeSoft && IsStateOK(new_state)))
 		send_notification = true;
 
 	if (IsStateOK(old_state) && old_stateType == StateTypeSoft)
